@@ -110,11 +110,15 @@ WrongKeyStep(kx) == e' = Idx(e, kx) /\ v' = Failed
 CallStep(m) == /\ e' = MCall(e, m)
                /\ v' = IF v.t = "rec" /\ m \in DOMAIN v.m THEN v.m[m] ELSE Failed
 
+\* a path that has failed is continued by ONE more selection (in a let: the failed prefix is bound first, then selected from):
+\* what cannot be completed stays an error or empty -- it never turns into the receiver or some other element again
+Failed2 == [t |-> "fail", again |-> TRUE]
 Extend ==
   /\ fam = "walk" /\ UNCHANGED fam
-  /\ n < MaxSteps /\ v # Failed /\ v.t \in {"rec", "arr", "map", "nil", "pmap", "pslice", "imap"}
+  /\ n < MaxSteps + (IF v = Failed THEN 1 ELSE 0) /\ v # Failed2 /\ v.t \in {"rec", "arr", "map", "nil", "pmap", "pslice", "imap", "fail"}
   /\ n' = n + 1
-  /\ \/ v.t = "rec" /\ \E f \in DOMAIN v.f \cup {"Nope", Unexported} : FieldStep(f)
+  /\ \/ v = Failed /\ e' = Dot(e, "Name") /\ v' = Failed2
+     \/ v.t = "rec" /\ \E f \in DOMAIN v.f \cup {"Nope", Unexported} : FieldStep(f)
      \/ v.t = "rec" /\ \E m \in DOMAIN v.m \cup {"Nope"} : CallStep(m)
      \/ v.t = "nil" /\ FieldStep("Name")
      \* the largest int as an index (literal and variable): out of range like any other
@@ -135,17 +139,20 @@ Extend ==
 Spec == Init /\ [][Extend]_vars
 
 \* ---- the three uses of a path
-Uses == {"emit", "let", "iter"}
+\* (letsel: the path without its last field selection is bound first, the selection applied to the bound name)
+Uses == {"emit", "let", "iter", "letsel"}
 Prog(u) == CASE u = "emit" -> <<Text(<<"[">>), Emit(e), Text(<<"]">>)>>
              [] u = "let"  -> <<Let("z", e), Text(<<"[">>), Emit(Id("z")), Text(<<"]">>)>>
+             [] u = "letsel" -> IF e.t = "dot" THEN <<Let("z", e.l), Text(<<"[">>), Emit(Dot(Id("z"), e.n)), Text(<<"]">>)>>
+                                ELSE <<Text(<<"[">>), Emit(e), Text(<<"]">>)>>
              [] u = "iter" -> <<Text(<<"[">>), Emit(For("", "w", e, <<Text(<<"(">>), Emit(Id("w")), Text(<<")">>)>>)), Text(<<"]">>)>>
 Res(u) == Run(Prog(u), WithHelpers(Data), EmptyScope, "")
 
 \* what C11 states: the value Go navigation yields, or an error / empty output when it cannot be completed
 Expect(u) ==
   LET r == Res(u) IN
-  IF v # Failed /\ v.t \in {"unspecv", "pmap", "pslice"} THEN [k |-> "unspec"]
-  ELSE IF v = Failed \/ v.t = "nil" THEN [k |-> "errorempty", base |-> <<"[", "]">>]
+  IF v.t \in {"unspecv", "pmap", "pslice"} THEN [k |-> "unspec"]
+  ELSE IF v.t = "fail" \/ v.t = "nil" THEN [k |-> "errorempty", base |-> <<"[", "]">>]
   ELSE IF u = "iter" /\ v.t \notin {"arr", "map", "imap"} THEN [k |-> "errorempty", base |-> <<"[", "]">>]
   ELSE IF u = "iter" /\ (v.t \in {"map", "imap"} \/ \E i \in 1..Len(v.xs) : v.xs[i].t # "str") THEN [k |-> "unspec"]
   ELSE IF u # "iter" /\ v.t # "str" THEN [k |-> "unspec"]                  \* not a leaf: printed form unspecified
@@ -157,11 +164,11 @@ RevisitRes == LET nm == CHOOSE x \in DOMAIN RevisitPaths : \E h \in {"loop", "as
                   how == IF \E x \in DOMAIN RevisitPaths : fam = x \o ":loop" THEN "loop" ELSE "assign"
               IN [prog |-> RevisitProg(nm, how), r |-> Run(RevisitProg(nm, how), WithHelpers(Data), EmptyScope, "")]
 RevisitTheorem == fam # "walk" => RevisitRes.r.k = "out"
-NavTheorem == (fam = "walk" /\ v # Failed /\ v.t = "str") => (Res("emit").k = "out" /\ Res("emit").pieces = <<[k |-> "raw", s |-> <<"[">>], [k |-> "esc", s |-> v.s], [k |-> "raw", s |-> <<"]">>]>>)
-FailTheorem == (fam = "walk" /\ v = Failed) => Res("emit").k \in {"err", "unspec"}
+NavTheorem == (fam = "walk" /\ v.t = "str") => (Res("emit").k = "out" /\ Res("emit").pieces = <<[k |-> "raw", s |-> <<"[">>], [k |-> "esc", s |-> v.s], [k |-> "raw", s |-> <<"]">>]>>)
+FailTheorem == (fam = "walk" /\ v.t = "fail") => Res("emit").k \in {"err", "unspec"}
 EmitCase == IF fam # "walk"
             THEN PrintT("CASE " \o ToJson([gen |-> "GenPaths", srcs |-> [revisit |-> Unparse(RevisitRes.prog)],
                                              expects |-> [revisit |-> [k |-> "out", pieces |-> RevisitRes.r.pieces, log |-> <<>>]], steps |-> 3, reached |-> fam]))
             ELSE PrintT("CASE " \o ToJson([gen |-> "GenPaths", srcs |-> [u \in Uses |-> Unparse(Prog(u))],
-                                       expects |-> [u \in Uses |-> Expect(u)], steps |-> n, reached |-> (IF v = Failed THEN "fail" ELSE v.t)]))
+                                       expects |-> [u \in Uses |-> Expect(u)], steps |-> n, reached |-> v.t]))
 =============================================================================
